@@ -72,6 +72,13 @@ W4Ops == Call("load", W4Keys) \cup {Simple("hot_reload")}
          \cup {NotifyOp(b) : b \in {{FileE("c","y")}, {FileE("b","x")}, {FileE("a","x")}, {FileE("c","y"), FileE("b","x")}}}
          \cup {EditOp(F("c","y"), CRef("b")), EditOp(F("c","y"), CRef("a")), EditOp(F("b","x"), CVal(2)), EditOp(F("a","x"), CVal(3))}
 
+(* W4e: the recorded set of a compound shrinks to exactly nothing across a successful reload (its selector *)
+(* is read inside no_record and stops selecting); later changes of the former dependency are none of its  *)
+(* business any more (C06: precise), and it comes back when the selector selects again and it is reloaded *)
+W4eScripts == (K("N0","c") :> <<IIndirectNR("c","y","L0",FALSE)>>)
+W4eOps == Call("load", {K("N0","c")}) \cup {Simple("hot_reload"), NotifyOp({FileE("a","x")}),
+          EditOp(F("c","y"), CVal(1)), EditOp(F("c","y"), CRef("b")), EditOp(F("a","x"), CVal(3))}
+
 (* W4r: re-wire, then touch the dependency that was dropped (stale reverse edges) *)
 W4rOps == Call("load", {K("N0","c")}) \cup {Simple("hot_reload"), NotifyOp({FileE("c","y")}), NotifyOp({FileE("a","x")}),
           EditOp(F("c","y"), CRef("b")), EditOp(F("a","x"), CVal(3))}
@@ -101,6 +108,16 @@ W4yOps == Call("load", {K("N0","c")}) \cup Call("remove", {K("N0","c")}) \cup {S
 (* W4d: the shortest histories that re-wire and edit in one batch (D8) ------- *)
 W4dOps == Call("load", {K("L0","b"), K("N0","c")}) \cup {Simple("hot_reload"), NotifyOp({FileE("c","y"), FileE("b","x")}),
           EditOp(F("c","y"), CRef("b")), EditOp(F("b","x"), CVal(2))}
+
+(* W3s: entries that share an id (two extensions of one id; a file and a directory of the same name) *)
+(* notified in ONE batch: an id does not identify an entry (C05, C06) ----------------------------- *)
+W3sKeys == {K("L0","d"), K("N1","c"), K("DL0","d")}
+W3sFiles == {F("d","x"), F("d","y"), F("d.a","x"), F("d.b","x")}
+W3sSrcs == {[f \in W3sFiles |-> IF f = F("d.b","x") THEN None ELSE CVal(1)]}
+W3sScripts == (K("N1","c") :> <<IRead("d","y")>>)
+W3sOps == Call("load", W3sKeys) \cup {Simple("hot_reload")}
+          \cup {NotifyOp(b) : b \in {{FileE("d","x"), FileE("d","y")}, {DirE("d"), FileE("d","x")}, {DirE("d"), FileE("d","y")}}}
+          \cup {EditOp(F("d","x"), CVal(2)), EditOp(F("d","y"), CVal(3)), EditOp(F("d.b","x"), CVal(1))}
 
 (* W5: directories (C11 through the cache, C05 for directory changes) ------- *)
 W5Keys == {K("DL0",""), K("DL0","d"), K("DL1","d"), K("RL0",""), K("RL0","d"), K("RL0","d.e"),
